@@ -363,10 +363,18 @@ func rpcCase(c, out map[string]interface{}) {
 	dirReq := c["dir"] == "request"
 	sent := shapeMessage(c, 2)
 	orig := shapeMessage(c, 2)
+	// what is handed to the library: the generated message or its dynamic twin
+	var sentObj interface{} = sent
+	var sentDyn *dynamic.Message
+	if c["rep"] == "dyn" {
+		sentDyn = toDyn(sent)
+		sentObj = sentDyn
+	}
 	var hGot, cGot *gt.Message
 	full := []interface{}{"scalar", "bytes", "repeated", "map", "nested"}
 	stale := func() *gt.Message { return shapeMessage(map[string]interface{}{"shape": full}, 55) }
-	mutate := func(m *gt.Message) {
+	var mutate func(m *gt.Message)
+	mutate = func(m *gt.Message) {
 		m.Count = -999
 		if len(m.Payload) > 0 {
 			m.Payload[0] = 0xEE
@@ -378,6 +386,29 @@ func rpcCase(c, out map[string]interface{}) {
 		if len(m.ErrorDetails) > 0 {
 			m.ErrorDetails[0].Value = []byte("mutated")
 		}
+	}
+	mutateGen := mutate
+	mutate = func(m *gt.Message) {
+		if sentDyn == nil {
+			mutateGen(m)
+			return
+		}
+		// reuse the dynamic message in place
+		if b, ok := sentDyn.GetFieldByNumber(1).([]byte); ok && len(b) > 0 {
+			b[0] = 0xEE
+		}
+		for _, fn := range []int{5, 6} {
+			if mp, ok := sentDyn.GetFieldByNumber(fn).(map[interface{}]interface{}); ok {
+				for _, v := range mp {
+					if b, ok := v.([]byte); ok {
+						for i := range b {
+							b[i] = 0xEE
+						}
+					}
+				}
+			}
+		}
+		sentDyn.SetFieldByNumber(2, int32(-999))
 	}
 	aftersend := true
 	hold := make(chan struct{})
@@ -391,7 +422,7 @@ func rpcCase(c, out map[string]interface{}) {
 			if dirReq {
 				return &gt.Message{}, nil
 			}
-			return sent, nil
+			return sentObj, nil
 		}}},
 		Streams: []grpc.StreamDesc{{StreamName: "S", ClientStreams: true, ServerStreams: true, Handler: func(srv interface{}, ss grpc.ServerStream) error {
 			if dirReq {
@@ -407,7 +438,7 @@ func rpcCase(c, out map[string]interface{}) {
 			if err := ss.RecvMsg(in); err != nil && err != io.EOF {
 				return err
 			}
-			if err := ss.SendMsg(sent); err != nil {
+			if err := ss.SendMsg(sentObj); err != nil {
 				return err
 			}
 			// the handler reuses its response object after the send returned
@@ -424,9 +455,9 @@ func rpcCase(c, out map[string]interface{}) {
 	ran := false
 	if kind == "unary" {
 		resp := stale()
-		req := &gt.Message{}
+		var req interface{} = &gt.Message{}
 		if dirReq {
-			req = sent
+			req = sentObj
 		}
 		if err := ch.Invoke(ctx, "/verif.Svc/U", req, resp); err == nil {
 			ran = true
@@ -436,9 +467,9 @@ func rpcCase(c, out map[string]interface{}) {
 		sd := &grpc.StreamDesc{StreamName: "S", ClientStreams: kind != "sstream", ServerStreams: kind != "cstream"}
 		st, err := ch.NewStream(ctx, sd, "/verif.Svc/S")
 		if err == nil {
-			req := &gt.Message{}
+			var req interface{} = &gt.Message{}
 			if dirReq {
-				req = sent
+				req = sentObj
 			}
 			if err = st.SendMsg(req); err == nil {
 				if dirReq {
@@ -475,7 +506,7 @@ func rpcCase(c, out map[string]interface{}) {
 	out["equal"] = proto.Equal(got, orig)
 	out["aftersend"] = aftersend && proto.Equal(got, orig)
 	out["overwritten"] = proto.Equal(got, orig)
-	out["disjoint"] = disjoint(got, sent)
+	out["disjoint"] = disjoint(got, sentObj)
 }
 
 func clonerCase(c map[string]interface{}) (out map[string]interface{}) {
